@@ -198,6 +198,15 @@ def ob_step(kind: int, a: int, b: int, c: int, d: int, e: int, si: int, mi: int,
 def _step(kind, a, b, c, d, e, si, mi, flag, vk, vi):
     if not (0 <= kind < 8 and 0 <= si < len(C.slices) and 0 <= mi < len(C.marks) and 0 <= vk <= 4 and 0 <= vi < len(STRS)):
         return rt.SKIP
+    if "kind" in P and kind != P["kind"]:
+        return rt.SKIP
+    # pin what a kind does not use (before any pick, so no path is spent on it)
+    if kind < 2 and mi != 0:
+        return rt.SKIP
+    if kind >= 2 and (flag or si != P.get("sis", [0])[0]):
+        return rt.SKIP
+    if kind < 6 and (vk != 0 or vi != 0):
+        return rt.SKIP
     vi = rt.pick(vi, 0, len(STRS) - 1)
     vs = STRS[vi]
     if kind < 6 and (vk != 0 or vi != 0):
